@@ -10,13 +10,38 @@ import logging
 from cpverif import spec as S
 from cpverif.model import classify_global, expected_notes, td_us
 from cpverif.observe import diff_paths
+from cpverif.observe import obs_metadata as _obs_metadata
 from cpverif.trackcheck import sustain_plain
+
+
+def expected_metadata(spec) -> dict:
+    """All 24 fields as the [Song] lines of the spec say (first line of a field wins; one pair of quotes
+    stripped from string values; documented defaults otherwise)."""
+    from cpverif.model import FIELDS
+    given: dict = {}
+    for name, raw in spec.get("song") or []:
+        given.setdefault(name, raw)
+    out = {}
+    for pascal, snake, kind, default in FIELDS:
+        if pascal == "Resolution":
+            out[snake] = int(given.get(pascal, spec["res"]))
+        elif pascal not in given:
+            out[snake] = default
+        else:
+            raw = given[pascal]
+            if kind == "int":
+                out[snake] = int(raw)
+            elif kind == "p2":
+                out[snake] = raw.strip('"').upper()
+            else:
+                out[snake] = raw[1:-1] if len(raw) >= 2 and raw[0] == '"' and raw[-1] == '"' else raw
+    return out
 
 
 def expected_struct(spec) -> dict:
     res = spec["res"]
     out = {"resolution": res, "bpm": [], "ts": [], "anchors": [], "text": [], "section": [],
-           "lyric": [], "tracks": {}}
+           "lyric": [], "tracks": {}, "metadata": expected_metadata(spec)}
     for it in spec.get("sync", []):
         if it[1] == "B":
             out["bpm"].append([it[0], it[2] / 1000])
@@ -57,6 +82,7 @@ def actual_struct(chart) -> dict:
         "section": [[e.tick, e.value] for e in g.section_events],
         "lyric": [[e.tick, e.value] for e in g.lyric_events],
         "tracks": {},
+        "metadata": _obs_metadata(chart.metadata),
     }
     if st.bpm_events.resolution != chart.metadata.resolution:
         out["resolution"] = [chart.metadata.resolution, st.bpm_events.resolution]
